@@ -259,6 +259,16 @@ def replay_violation(pid, v, mod, seed):
         if r["json"] and r["json"].get("failures"):
             found = r["json"]["failures"][0]
             data["failing_input"] = found
+    grid = getattr(c, "replay_grid", None) if c is not None else None
+    if found is None and grid and pid in grid:
+        # contracts on the command-line builder: look for a failing command line with the oracles of this property
+        r = run_native("cli_grid.py", {"seed": seed + 1000, "count": 120, "props": [pid]}, timeout=3000)
+        js = r["json"] or {}
+        mine = [f for f in js.get("failures", []) if f.get("property") == pid]
+        data["grid_search"] = {"cases": js.get("cases"), "failures": mine[:3]}
+        if mine:
+            found = mine[0]
+            data["failing_input"] = found
     path = write_replay(pid, o.oid, data)
     return path, found
 
